@@ -5,6 +5,7 @@ pub mod engine;
 pub mod gen;
 pub mod props;
 pub mod refmodel;
+pub mod scratch;
 pub mod zones;
 
 use engine::{Opts, Tier};
@@ -79,6 +80,7 @@ fn main() {
                 }
             }
         }
+        Some("scratch") => scratch::run(),
         Some("selftest") => {
             println!("refcal ok");
         }
